@@ -442,7 +442,10 @@ fn run_travelled_key(cx: &mut CaseCx, case: &Value) {
   use super::c11::{export_bytes, import_into};
   use ppoprf::ppoprf as pp;
   cx.entropy(1);
-  let s0 = match pp::Server::new((0..=255u8).collect()) {
+  // every other block of inputs: the server registers only two tags, so that most punctured inputs are tags
+  // it never published (the puncturable key must be punctured all the same)
+  let few = (case["lo"].as_u64().unwrap() / 8) % 2 == 1;
+  let s0 = match pp::Server::new(if few { vec![9, 200] } else { (0..=255u8).collect() }) {
     Ok(s) => s,
     Err(_) => return,
   };
@@ -467,6 +470,24 @@ fn run_travelled_key(cx: &mut CaseCx, case: &Value) {
       for &x in &h {
         if !path.contains(&x) && s.puncture(x).is_ok() {
           path.push(x);
+        }
+      }
+      // the key inside the puncturing server itself (before it travels)
+      {
+        let before = cx.viols.len();
+        check_state(cx, s.verif_pprf(), &path, &baseline, false);
+        // a second puncture of the same inputs is refused
+        for &x in &path {
+          if guard(|| s.clone().puncture(x).is_ok()) == Ok(true) {
+            cx.viol("C10/not-refused/re-puncture", format!("input {} was punctured a second time through the server without error", x), json!({"punctured_in_order": path, "again": x}));
+          }
+        }
+        for v in cx.viols.iter_mut().skip(before) {
+          v.key = format!("C10/key-inside-server/{}", v.key.trim_start_matches("C10/"));
+          v.what = format!("puncturable key inside a server that registers {} (punctured through Server::puncture: {:?}): {}", if few { "only the tags 9 and 200" } else { "all 256 tags" }, path, v.what);
+        }
+        if cx.viols.len() > before {
+          return;
         }
       }
       let bytes = match export_bytes(&s) {
@@ -811,7 +832,7 @@ pub fn spec() -> PropSpec {
       },
       Check {
         name: "travelled-key",
-        rule: "serialise-then-use: for EVERY input a, nine puncture histories starting at a (alone; with its sibling, cousin, neighbours, complement, bit-reversal; inside a triple; a stride-64 quadruple) on the key inside a Server; the key state is exported (key-sync), imported into a fresh server and into a follower: the C10 invariant over all 256 inputs on the key the importer holds, and after each of three further punctures there",
+        rule: "serialise-then-use: for EVERY input a, nine puncture histories starting at a (alone; with its sibling, cousin, neighbours, complement, bit-reversal; inside a triple; a stride-64 quadruple) on the key inside a Server (alternately one that registers all 256 tags and one that registers two, so that the punctured inputs are mostly unpublished tags): the invariant on that key itself, re-punctures refused; then the key state is exported (key-sync), imported into a fresh server and into a follower: the C10 invariant over all 256 inputs on the key the importer holds, and after each of three further punctures there",
         gen: |_| (0..32u64).map(|i| json!({"lo": i * 8})).collect(),
         run: run_travelled_key,
         min_counts: &[("states", 10_000)],
